@@ -352,6 +352,19 @@ func (e *Engine) setupIntrinsics() {
 		}
 		return BoolC(math.IsInf(f.F, argInt(a[1])))
 	}
+	for name, hf := range map[string]func(float64) float64{"Trunc": math.Trunc, "Floor": math.Floor, "Ceil": math.Ceil, "Abs": math.Abs, "Sqrt": math.Sqrt, "Round": math.Round} {
+		name, hf := name, hf
+		n["math."+name] = func(e *Engine, st *State, fn *ssa.Function, a []Value) Value {
+			f := a[0].(FloatV)
+			if f.isConc() {
+				return concFloat(hf(f.F))
+			}
+			if f.Sym != nil && (name == "Trunc" || name == "Floor" || name == "Ceil" || name == "Round") {
+				return f // integer-valued
+			}
+			panic(unsupported("math." + name + " of a symbolic float"))
+		}
+	}
 	n["math.Inf"] = func(e *Engine, st *State, fn *ssa.Function, a []Value) Value {
 		return concFloat(math.Inf(argInt(a[0])))
 	}
@@ -394,6 +407,7 @@ func (e *Engine) setupIntrinsics() {
 		}
 		return e.newSlice(st, types.Typ[types.Uint8], k, k)
 	}
+	e.setupAtomics(n)
 	n["sort.Slice"] = nativeSortSlice
 	n["sort.SliceStable"] = nativeSortSlice
 	n["regexp.MustCompile"] = func(e *Engine, st *State, fn *ssa.Function, a []Value) Value {
@@ -412,6 +426,25 @@ func (e *Engine) setupIntrinsics() {
 			panic(unsupported("vpFindAllNonSpace missing in harness runtime"))
 		}
 		return tailCall{Fn: FuncV{Fn: tf}, Args: []Value{a[1]}}
+	}
+	n["(*regexp.Regexp).FindAll"] = func(e *Engine, st *State, fn *ssa.Function, a []Value) Value {
+		p := a[0].(PtrV)
+		pat := argStr(st.obj(p.Obj).V.(*StructV).F[0])
+		if pat != `\S+` || argInt(a[2]) != -1 {
+			panic(unsupported("regexp other than \\S+ with n=-1"))
+		}
+		tf := e.pkg.Func("vpFindAllNonSpaceBytes")
+		if tf == nil {
+			panic(unsupported("vpFindAllNonSpaceBytes missing in harness runtime"))
+		}
+		return tailCall{Fn: FuncV{Fn: tf}, Args: []Value{a[1]}}
+	}
+	// any other method of the marker object made by regexp.MustCompile
+	for _, m := range []string{"Find", "FindString", "FindIndex", "FindStringIndex", "FindSubmatch", "FindStringSubmatch", "FindAllIndex", "FindAllStringIndex", "FindAllSubmatch", "FindAllStringSubmatch", "Match", "MatchString", "ReplaceAll", "ReplaceAllString", "ReplaceAllLiteral", "ReplaceAllLiteralString", "Split", "String"} {
+		m := m
+		n["(*regexp.Regexp)."+m] = func(e *Engine, st *State, fn *ssa.Function, a []Value) Value {
+			panic(unsupported("(*regexp.Regexp)." + m + " (only \\S+ with FindAll/FindAllString is modelled)"))
+		}
 	}
 	// fmt
 	n["fmt.Errorf"] = func(e *Engine, st *State, fn *ssa.Function, a []Value) Value {
@@ -527,6 +560,9 @@ func (e *Engine) setupIntrinsics() {
 		"os.Open":                          "vpOsOpen",
 		"(*os.File).Read":                  "vpFileRead",
 		"(*os.File).Close":                 "vpFileClose",
+		"(*os.File).Stat":                  "vpFileStat",
+		"os.Stat":                          "vpOsStat",
+		"os.Lstat":                         "vpOsStat",
 		"(*sync.Mutex).Lock":               "vpMutexLock",
 		"(*sync.Mutex).Unlock":             "vpMutexUnlock",
 		"(*sync.Mutex).TryLock":            "vpMutexTryLock",
@@ -672,6 +708,124 @@ func (e *Engine) ackermann(st *State, fname string, args []*Term, s Sort) *Term 
 	}
 	st.Ack[key] = append(st.Ack[key], ackApp{args: args, res: res})
 	return res
+}
+
+
+// atomics: the executor runs one goroutine, so an atomic operation is the
+// plain operation on the cell that holds the value.
+func (e *Engine) setupAtomics(n map[string]nativeImpl) {
+	fieldV := func(fn *ssa.Function, recv Value) PtrV {
+		p := recv.(PtrV)
+		if p.Obj == 0 {
+			panic(unsupported("atomic operation on a nil pointer"))
+		}
+		rt := fn.Signature.Recv().Type()
+		stt, ok := under(rt.(*types.Pointer).Elem()).(*types.Struct)
+		if !ok {
+			panic(unsupported("atomic type is not a struct"))
+		}
+		for i := 0; i < stt.NumFields(); i++ {
+			if stt.Field(i).Name() == "v" {
+				return PtrV{Obj: p.Obj, Path: extPath(p.Path, PathElem{I: i})}
+			}
+		}
+		panic(unsupported("atomic type without a field v"))
+	}
+	nilPtr := func(v Value) Value {
+		if v == nil {
+			return PtrV{}
+		}
+		return v
+	}
+	// typed wrappers
+	for _, t := range []string{"Pointer[T]", "Value", "Int32", "Int64", "Uint32", "Uint64", "Uintptr", "Bool"} {
+		t := t
+		isNum := t != "Pointer[T]" && t != "Value" && t != "Bool"
+		n["(*sync/atomic."+t+").Load"] = func(e *Engine, st *State, fn *ssa.Function, a []Value) Value {
+			v := st.Load(fieldV(fn, a[0]))
+			if t == "Bool" {
+				return Not(Eq(v.(*Term), BVC(32, 0)))
+			}
+			if t == "Pointer[T]" {
+				return nilPtr(v)
+			}
+			return v
+		}
+		n["(*sync/atomic."+t+").Store"] = func(e *Engine, st *State, fn *ssa.Function, a []Value) Value {
+			v := a[1]
+			if t == "Bool" {
+				v = Ite(a[1].(*Term), BVC(32, 1), BVC(32, 0))
+			}
+			st.Store(fieldV(fn, a[0]), v)
+			return nil
+		}
+		n["(*sync/atomic."+t+").Swap"] = func(e *Engine, st *State, fn *ssa.Function, a []Value) Value {
+			if t == "Bool" {
+				panic(unsupported("atomic.Bool.Swap"))
+			}
+			fp := fieldV(fn, a[0])
+			old := st.Load(fp)
+			st.Store(fp, a[1])
+			if t == "Pointer[T]" {
+				return nilPtr(old)
+			}
+			return old
+		}
+		if isNum {
+			n["(*sync/atomic."+t+").Add"] = func(e *Engine, st *State, fn *ssa.Function, a []Value) Value {
+				fp := fieldV(fn, a[0])
+				nv := BVAdd(st.Load(fp).(*Term), a[1].(*Term))
+				st.Store(fp, nv)
+				return nv
+			}
+			n["(*sync/atomic."+t+").CompareAndSwap"] = func(e *Engine, st *State, fn *ssa.Function, a []Value) Value {
+				fp := fieldV(fn, a[0])
+				if e.decide(st, Eq(st.Load(fp).(*Term), a[1].(*Term))) {
+					st.Store(fp, a[2])
+					return TrueT
+				}
+				return FalseT
+			}
+		}
+	}
+	n["(*sync/atomic.Pointer[T]).CompareAndSwap"] = func(e *Engine, st *State, fn *ssa.Function, a []Value) Value {
+		fp := fieldV(fn, a[0])
+		if e.decide(st, e.eqVal(nilPtr(st.Load(fp)), a[1])) {
+			st.Store(fp, a[2])
+			return TrueT
+		}
+		return FalseT
+	}
+	// function forms on plain cells
+	for _, t := range []string{"Int32", "Int64", "Uint32", "Uint64", "Uintptr"} {
+		n["sync/atomic.Load"+t] = func(e *Engine, st *State, fn *ssa.Function, a []Value) Value {
+			return st.Load(a[0].(PtrV))
+		}
+		n["sync/atomic.Store"+t] = func(e *Engine, st *State, fn *ssa.Function, a []Value) Value {
+			st.Store(a[0].(PtrV), a[1])
+			return nil
+		}
+		n["sync/atomic.Add"+t] = func(e *Engine, st *State, fn *ssa.Function, a []Value) Value {
+			p := a[0].(PtrV)
+			nv := BVAdd(st.Load(p).(*Term), a[1].(*Term))
+			st.Store(p, nv)
+			return nv
+		}
+		n["sync/atomic.Swap"+t] = func(e *Engine, st *State, fn *ssa.Function, a []Value) Value {
+			p := a[0].(PtrV)
+			old := st.Load(p)
+			st.Store(p, a[1])
+			return old
+		}
+		n["sync/atomic.CompareAndSwap"+t] = func(e *Engine, st *State, fn *ssa.Function, a []Value) Value {
+			p := a[0].(PtrV)
+			if e.decide(st, Eq(st.Load(p).(*Term), a[1].(*Term))) {
+				st.Store(p, a[2])
+				return TrueT
+			}
+			return FalseT
+		}
+	}
 }
 
 // ackermannT: math.Log as an uninterpreted function with its contract.
